@@ -148,6 +148,8 @@ CATALOGUE: list[tuple] = [
     ("linecol-column-zero-based", ["C14"], PAIRS, "            self.pos - (cumulative_length - len(lines[target_line_index])) + 1\n        )\n        return line_number, column_number", "            self.pos - (cumulative_length - len(lines[target_line_index]))\n        )\n        return line_number, column_number", "fire", "line_col"),
     ("span-lines-off-by-one", ["C14"], PAIRS, "        return lines[start_line_number - 1 : end_line_number]", "        return lines[start_line_number - 1 : end_line_number - 1]", "fire", "Span.lines"),
     ("S-linecol-count-rfind-form", ["C14"], PAIRS, "        lines = self.text.splitlines(keepends=True)\n        cumulative_length = 0\n        target_line_index = -1\n\n        for i, line in enumerate(lines):\n            cumulative_length += len(line)\n            if self.pos < cumulative_length:\n                target_line_index = i\n                break\n\n        if target_line_index == -1:\n            # At the end of the text: on a new line if the text is empty or\n            # ends with a line break, else just after the last line.\n            if lines and lines[-1].splitlines()[0] == lines[-1]:\n                return len(lines), len(lines[-1]) + 1\n            return len(lines) + 1, 1\n\n        # 1-based\n        line_number = target_line_index + 1\n        column_number = (\n            self.pos - (cumulative_length - len(lines[target_line_index])) + 1\n        )\n        return line_number, column_number", "        before = self.text[: self.pos]\n        return before.count(\"\\n\") + 1, self.pos - before.rfind(\"\\n\")", "silent", ""),
+    # ---- the defect repaired by 1103b37, put back
+    ("repeat-gen-trivia-outside-checkpoint", ["C01"], POSTFIX, '            gen.writeln("state.checkpoint()")\n            gen.writeln(f"if not {first}:")\n            with gen.block():\n                # Trivia before an iteration is given back, together with\n                # anything it did to the stack, if the iteration fails.\n                gen.writeln(f"parse_trivia(state, {tmp_pairs})")\n            # Parse one item\n            self.expression.generate(gen, matched_var, tmp_pairs)\n\n            gen.writeln(f"if {matched_var}:")\n            with gen.block():\n                gen.writeln("state.ok()")\n                # Commit the item immediately\n                gen.writeln(f"{pairs_var}.extend({tmp_pairs})")\n                gen.writeln(f"{tmp_pairs}.clear()")\n                gen.writeln(f"{first} = False")\n            gen.writeln("else:")\n            with gen.block():\n                gen.writeln("state.restore()")\n', '            gen.writeln("state.checkpoint()")\n            # Parse one item\n            self.expression.generate(gen, matched_var, tmp_pairs)\n\n            gen.writeln(f"if {matched_var}:")\n            with gen.block():\n                gen.writeln("state.ok()")\n                # Commit the item immediately\n                gen.writeln(f"{pairs_var}.extend({tmp_pairs})")\n                gen.writeln(f"{tmp_pairs}.clear()")\n                gen.writeln(f"{first} = state.pos")\n                gen.writeln(f"parse_trivia(state, {tmp_pairs})")\n            gen.writeln("else:")\n            with gen.block():\n                gen.writeln("state.restore()")\n                gen.writeln(f"if {first} is not True:")\n                with gen.block():\n                    gen.writeln(f"state.pos = {first}")\n', "fire", "Repeat"),
     # ---- C01 DIFF (both siblings evaluated on scripted children)
     ("push-gen-slice-from-zero", ["C01"], TERMINALS, 'gen.writeln(f"state.push(state.input[{start_var} : state.pos])")', 'gen.writeln("state.push(state.input[: state.pos])")', "fire", "Push"),
     ("peek-gen-advances-by-one", ["C01"], TERMINALS, '        with gen.block():\n            gen.writeln(f"state.pos += len({peeked})")\n            gen.writeln(f"{matched_var} = True")\n        gen.writeln("else:")', '        with gen.block():\n            gen.writeln("state.pos += 1")\n            gen.writeln(f"{matched_var} = True")\n        gen.writeln("else:")', "fire", "Peek"),
